@@ -1010,8 +1010,8 @@ func (s hcConf) label() string {
 func httpCacheFamily() *family {
 	const name = "httpcache"
 
-	proto := func(sc hcConf) MechSpec {
-		u := "http://" + hostCtx + "/hc/" + sc.CC
+	protoAt := func(sc hcConf, origin string) MechSpec {
+		u := origin + "/hc/" + sc.CC
 
 		hs := map[string]any{}
 
@@ -1042,6 +1042,8 @@ func httpCacheFamily() *family {
 		return MechSpec{Kind: "contextualizer", ID: "m1", Type: "generic", Config: cfg}
 	}
 
+	proto := func(sc hcConf) MechSpec { return protoAt(sc, "http://"+hostCtx) }
+
 	cases := func(conf any) []*Case {
 		sc := conf.(hcConf) //nolint:forcetypeassert
 
@@ -1070,6 +1072,22 @@ func httpCacheFamily() *family {
 		emit("subject-id", func(i *Input) { i.SubjectID = "bob" })
 		emit("forwarded-header-value", func(i *Input) { i.Headers["X-Tenant"] = "t2" })
 		emit("forwarded-cookie-value", func(i *Input) { i.Cookies["session"] = "s2" })
+
+		// another origin under the same host name, same path and query: another system
+		for _, o := range []struct{ kind, origin string }{
+			{"endpoint-port", "http://" + hostCtx + ":8443"}, {"endpoint-scheme", "https://" + hostCtx},
+			{"endpoint-scheme-and-port", "https://" + hostCtx + ":8443"},
+		} {
+			other := protoAt(sc, o.origin)
+			if sc.RuleLevel {
+				other = other.with(m("continue_pipeline_on_error", false))
+			}
+
+			out = append(out, &Case{
+				Family: name, Conf: sc.label(), Kind: o.kind, MechA: base, MechB: other, InA: in, InB: in.clone(),
+				Maps: map[string]int{},
+			})
+		}
 
 		return out
 	}
